@@ -961,16 +961,39 @@ func GuardedByNilResult(at ssa.Instruction, call ssa.Value, idx int) bool {
 
 // StatusCode: if v is the result of status.Error / status.Errorf with a
 // constant code, return the code number.
-func StatusCode(v ssa.Value) (int64, bool) {
+func StatusCode(v ssa.Value) (int64, bool) { return statusCode(v, 0) }
+
+func statusCode(v ssa.Value, depth int) (int64, bool) {
 	call, ok := v.(*ssa.Call)
 	if !ok {
 		return 0, false
 	}
 	n := CalleeName(call)
-	if n != "google.golang.org/grpc/status.Error" && n != "google.golang.org/grpc/status.Errorf" {
+	if n == "google.golang.org/grpc/status.Error" || n == "google.golang.org/grpc/status.Errorf" {
+		return ConstInt(call.Call.Args[0])
+	}
+	// a module helper all of whose returns are a status of one and the same code
+	// (e.g. func errBadToken(err error) error { return status.Errorf(codes.InvalidArgument, …) })
+	cal := call.Call.StaticCallee()
+	if cal == nil || depth > 2 || len(cal.Blocks) == 0 || cal.Package() == nil || !strings.HasPrefix(cal.Package().Pkg.Path(), ModulePath) {
 		return 0, false
 	}
-	return ConstInt(call.Call.Args[0])
+	res := cal.Signature.Results()
+	if res.Len() != 1 || !IsErrorType(res.At(0).Type()) {
+		return 0, false
+	}
+	var code int64
+	found := false
+	for _, r := range Returns(cal) {
+		for _, x := range ValuesAt(r.Results[0]) {
+			cd, ok := statusCode(x, depth+1)
+			if !ok || (found && cd != code) {
+				return 0, false
+			}
+			code, found = cd, true
+		}
+	}
+	return code, found
 }
 
 // gRPC status code numbers used by rules.
